@@ -15,6 +15,7 @@ type Cond struct {
 	Want bool   `json:"want,omitempty"` // condition is Var == Want
 	Lt   int    `json:"lt,omitempty"`   // if LtVar != "": condition is LtVar < Lt
 	LtVar string `json:"ltvar,omitempty"`
+	Ge   bool   `json:"ge,omitempty"` // with LtVar: the condition is LtVar >= Lt instead
 	Const *bool `json:"const,omitempty"` // constant condition
 	Lang string `json:"lang,omitempty"` // "" = expr, "xpath"
 	Obj  string `json:"obj,omitempty"`  // boolean data object (expr: getDataObject)
@@ -202,10 +203,14 @@ func condText(c *Cond) (lang string, text string) {
 		}
 		return lang, fmt.Sprintf("%v", *c.Const)
 	case c.LtVar != "":
-		if lang == xpathLang {
-			return lang, fmt.Sprintf("//%s &lt; %d", c.LtVar, c.Lt)
+		op := "&lt;"
+		if c.Ge {
+			op = "&gt;="
 		}
-		return lang, fmt.Sprintf("%s &lt; %d", c.LtVar, c.Lt)
+		if lang == xpathLang {
+			return lang, fmt.Sprintf("//%s %s %d", c.LtVar, op, c.Lt)
+		}
+		return lang, fmt.Sprintf("%s %s %d", c.LtVar, op, c.Lt)
 	case c.Obj != "":
 		return exprLang, fmt.Sprintf("getDataObject(&#34;%s&#34;) == %v", c.Obj, c.Want)
 	default:
